@@ -130,9 +130,9 @@ def again_case(m, default, line_msg, first, opaque):
     return Case(line, out, sig, fail, {'op': 'enc2', 'default': default, 'msg': line_msg})
 
 
-def foreign(rng):
-    """(pdu, default alphabet, expected field dict, kind)"""
-    k = rng.randrange(11)
+def foreign(rng, k=None, last=None):
+    """(pdu, default alphabet, expected field dict, kind); k, last: a particular shape / which parameter comes last"""
+    k = rng.randrange(11) if k is None else k
     seq = rng.randrange(1, 2 ** 31)
     if k == 10:         # octet-string parameters whose value contains NUL octets (network_error_code, callback_num ...)
         vals = [(0x0423, bytes([3, 0, rng.randrange(1, 128)])), (0x0381, bytes([1, 0, 0]) + b'12345'),
@@ -148,6 +148,8 @@ def foreign(rng):
                 (0x0424, 'payload text'.encode('ascii'), 'payload'), (0x020A, struct.pack('!H', 7), 'int'),
                 (0x130C, b'', 'flag'), (0x0427, bytes([2]), 'int'), (0x1400, b'vendor', 'octets')]
         rng.shuffle(tlvs)
+        if last is not None:
+            tlvs.sort(key=lambda x: x[0] == last)          # this parameter is the last one of the PDU
         body = S.sm_body(dst=(1, 1, '123'), data_coding=1, short_message=b'', tlvs=[(t, v) for t, v, _ in tlvs])
         exp = {'message_payload': 'payload text', 'short_message': '',
                'params': sorted((t, _val(t, v, kind)) for t, v, kind in tlvs if kind != 'payload')}
@@ -223,8 +225,8 @@ def _val(tag, raw, kind):
     return raw.decode('ascii')
 
 
-def dec_case(rng):
-    pdu, default, exp, kind = foreign(rng)
+def dec_case(rng, k=None, last=None):
+    pdu, default, exp, kind = foreign(rng, k, last)
     fail = None
     if rng.random() < 0.3:
         # the decoder is a function of the PDU: PDUs the library refuses (GSM text ending in the escape code, an undecodable
@@ -282,6 +284,11 @@ def generate(rng, tier):
             yield again
     for _ in range(600 if thorough else 200):
         yield dec_case(rng)
+    # every shape at least once; every parameter of the permuted list in last position (the empty-valued flag included)
+    for k in range(11):
+        yield dec_case(rng, k)
+    for last in (0x0204, 0x001E, 0x0424, 0x020A, 0x130C, 0x0427, 0x1400):
+        yield dec_case(rng, 0, last)
     # large PDUs (17 .. 70 KB) on a link under back-pressure while the peer keeps the Receiver answering: the octets on the
     # wire are whole PDUs, each as announced (the wire-discipline monitor of C15 on scenarios with large messages only)
     from corr import c15
